@@ -7,7 +7,11 @@ lines = sys.stdin.read().splitlines()
 if not lines:
     sys.exit(0)
 # balance by cost: a range line `xxr L lo n` costs n
-cost = [int(l.split()[3]) if l[2:3] == 'r' and len(l.split()) == 4 else 1 for l in lines]
+def cost_of(l):
+    w = l.split()
+    c = int(w[3]) if l[2:3] == 'r' and len(w) == 4 else 1
+    return c * (10 if l.startswith('sq') else 1)      # the sqrt functions are ~10x the cnst ones in extracted Coq integers
+cost = [cost_of(l) for l in lines]
 total = sum(cost); chunks = []; cur = []; acc = 0; target = total / n
 for l, c in zip(lines, cost):
     cur.append(l); acc += c
@@ -18,10 +22,11 @@ if cur:
 procs = []
 for ch in chunks:
     f = tempfile.TemporaryFile('w+'); f.write('\n'.join(ch) + '\n'); f.seek(0)
-    procs.append((subprocess.Popen(cmd, stdin=f, stdout=subprocess.PIPE, text=True), f, len(ch)))
+    o = tempfile.TemporaryFile('w+')      # a file, not a pipe: the children must not block on a full pipe
+    procs.append((subprocess.Popen(cmd, stdin=f, stdout=o, text=True), o, len(ch)))
 rc = 0
-for p, f, k in procs:
-    out, _ = p.communicate()
+for p, o, k in procs:
+    p.wait(); o.seek(0); out = o.read()
     sys.stdout.write(out)
     if p.returncode != 0:
         rc = p.returncode
